@@ -70,6 +70,9 @@ func runC03(c *Ctx) {
 		importObls(c, "C11", runC11, "X11", func(k string) bool { return true })
 		// ... and the filter is stamped with the clock read at verification, inside the critical section
 		importObls(c, "C04", runC04, "X04", func(k string) bool { return containsAny(k, "#stamped-in-filter-order", "#TestAndSet-now") })
+		// "valid for this bridge's identity": the status ntor reports for the client's public key (a point of
+		// low order makes both products zero and must abort the handshake before anything is written)
+		importObls(c, "C08", runC08, "X08", func(k string) bool { return containsAny(k, "term:common/ntor:ServerHandshake") })
 	}
 	p := c.P
 	wrap := obfs4WrapConn(c)
